@@ -664,7 +664,10 @@ impl EventGen for Tag {
                 let mut el = el.clone();
                 // A shape is the same shape whether it is written as an empty element
                 // or with an end tag (around its text, a <title>...).
-                if el.is_graphics_element() || matches!(el.name.as_str(), "box" | "point") {
+                // (not a <reuse>: its instance gets them)
+                if (el.is_graphics_element() && el.name != "reuse")
+                    || matches!(el.name.as_str(), "box" | "point")
+                {
                     context.apply_defaults(&mut el);
                 }
                 let (ev, bb) = el.generate_events(context)?;
